@@ -1,5 +1,5 @@
 (* Session_Proofs.v - a whole session, from a disconnected client back to a disconnected client. *)
-From LibFtp Require Import Bytes Decimal Reply Endpoint Ascii DataConn DataConn_Proofs Client Client_Proofs Login_Proofs Transfer_Proofs Transfer_More Modes_Proofs Ctl_Proofs History_Proofs.
+From LibFtp Require Import Bytes Decimal Reply Endpoint Ascii DataConn DataConn_Proofs Client Client_Proofs Login_Proofs Transfer_Proofs Transfer_More Modes_Proofs Ctl_Proofs History_Proofs History2_Proofs.
 Local Open Scope N_scope.
 
 Lemma run_isssl k w : run (IsSsl k) w = run (k (w_ssl w)) w.
@@ -91,3 +91,95 @@ Proof.
   split; [rewrite Sc3, Sc2; exact Sc1|]. auto.
 Qed.
 
+
+Lemma run_ctldisconnect_tls k w : w_ssl w = true -> w_tls_up w = true -> w_tls_clean w = true ->
+  run (CtlDisconnect k) w = run k (snd (ctl_disconnect w)).
+Proof. intros H1 H2 H3. cbn [run]. unfold ctl_disconnect. rewrite H1, H2, H3. reflexivity. Qed.
+
+(* graceful disconnect from a TLS session in step, the peer answering the close-notify: QUIT goes out inside TLS, its reply is
+   returned, the TLS layer is shut down, the connection closed, and the socket object is plain again *)
+Theorem quit_call_tls w r rest x :
+  insync w (r :: rest) -> w_ssl w = true -> w_tls_up w = true -> w_tls_clean w = true -> simple_reaction r x ->
+  exists w', step w (ADisconnect true) = (OReturn (RvOptReply (Some x)), w') /\
+    w_open w' = false /\ w_ssl w' = false /\ w_tls_up w' = false /\ w_backlog w' = [] /\ w_pending w' = [] /\ w_data w' = w_data w /\
+    w_script w' = w_script w /\
+    skipn (length (w_trace w)) (w_trace w') =
+      block (w_obs w) (ORequest QUIT_) ++ [EWire true (w_ord w) QUIT_] ++ [ERecv (w_ord w) x] ++ block (w_obs w) (OReply x) ++
+      [ECtl (CTlsShutdown true); ECtl CTcpShutdown; ECtl CClose; ECtl (CSetSsl false)].
+Proof.
+  intros ((Ho & Hs & Hpc & Hb) & Hp & Hc) Hssl Hup Hcl (R1n & R1c & R1a & R1x).
+  destruct w as [cfg f2 f3 f4 f5 f6 f7 f8 f9 f10 f11 f12 f13 f14 f15 f16 f17 f18 f19 f20].
+  cbn in Ho, Hs, Hpc, Hb, Hp, Hc, Hssl, Hup, Hcl. subst.
+  destruct r as [n1 oc1 dp1 ca1 tl1 d1]. cbn in R1n, R1c, R1a. subst.
+  rewrite step_disconnect_unfold. unfold op_disconnect.
+  erewrite (xchg QUIT_ None _ _ _ _ x); [| repeat split; auto | reflexivity | repeat split; auto | exact I].
+  cbv beta. rewrite run_isopen.
+  replace (w_open (after_command _ (line_of QUIT_ None) x)) with true by reflexivity. cbv iota.
+  rewrite run_ctldisconnect_tls by reflexivity.
+  rewrite run_isssl.
+  replace (w_ssl (snd (ctl_disconnect _))) with false by reflexivity. cbv iota.
+  rewrite run_ret.
+  eexists. split; [reflexivity|].
+  split; [reflexivity|]. split; [reflexivity|]. split; [reflexivity|]. split; [reflexivity|]. split; [reflexivity|].
+  split; [reflexivity|]. split; [reflexivity|].
+  unfold ctl_disconnect, block, line_of. cbn. rewrite <- ?app_assoc, ?skipn_app_len, ?app_nil_r. reflexivity.
+Qed.
+
+(* the TLS state along a history of calls none of which touches the control socket: unchanged while connected *)
+Lemma historyK_calls_noctl k t cs rss xss : historyK k t cs rss xss ->
+  Forall (fun c => match c with AConnect _ _ _ | ALogout | ADisconnect _ | ASetMode _ | ASetRfc2428 _ => False | _ => True end) cs.
+Proof. induction 1 as [|t c rs xs cs rss xss S _ IH]; constructor; [inversion S; exact I|exact IH]. Qed.
+
+Lemma steps_keept cs : forall w,
+  Forall (fun c => match c with AConnect _ _ _ | ALogout | ADisconnect _ | ASetMode _ | ASetRfc2428 _ => False | _ => True end) cs ->
+  keept w (snd (steps w cs)) /\ keepc w (snd (steps w cs)).
+Proof.
+  induction cs as [|c cs IH]; intros w F.
+  - cbn. split; [apply keept_refl|apply keepc_refl].
+  - inversion F as [|? ? Hc F']; subst. cbn [steps].
+    pose proof (step_keeps_tls_state c w) as T1. pose proof (step_keeps_ctl c w) as C1.
+    destruct (step w c) as [o w1]. cbn [snd] in T1, C1.
+    assert (T1' : keept w w1) by (destruct c; try contradiction; exact T1).
+    assert (C1' : keepc w w1) by (destruct c; try contradiction; exact C1).
+    destruct o.
+    + destruct (IH w1 F') as (T2 & C2). destruct (steps w1 cs) as [os w2]. cbn [snd] in *.
+      split; [eapply keept_trans; eassumption|eapply keepc_trans; eassumption].
+    + destruct (IH w1 F') as (T2 & C2). destruct (steps w1 cs) as [os w2]. cbn [snd] in *.
+      split; [eapply keept_trans; eassumption|eapply keepc_trans; eassumption].
+    + cbn [snd]. auto.
+Qed.
+
+(* C02 / C11 / C13 / C17 over a whole TLS session: connect with AUTH TLS and handshake, any history (all configurations),
+   QUIT with the TLS shutdown: every call returns its own replies; at the end the client is disconnected, its socket object
+   plain, no socket held, the script used up *)
+Theorem whole_session_tls w0 h p s srest g a r1 cs rss xss rq xq :
+  w_open w0 = false -> w_data w0 = None -> w_script w0 = s :: srest -> s_reachable s = true -> c_tls (w_cfg w0) = true ->
+  r_now (s_greeting s) = [RReply g] -> r_close_after (s_greeting s) = false -> code g <> 421 -> code g <> 120 -> is_negative g = false ->
+  s_reactions s = r1 :: rss ++ [rq] -> simple_reaction r1 a -> is_negative a = false -> r_tls_ok r1 = true ->
+  s_tls_close_clean s = true ->
+  (forall w1, w_cfg w1 = w_cfg w0 -> w_cur6 w1 = s_ip6 s -> historyK (kit_of w1) (c_type (w_cfg w0)) cs rss xss) ->
+  simple_reaction rq xq ->
+  let '(os, w') := steps w0 (AConnect h p None :: cs ++ [ADisconnect true]) in
+  map outcome_replies os = map Some ([g; a] :: xss ++ [[xq]]) /\
+  w_open w' = false /\ w_ssl w' = false /\ w_tls_up w' = false /\ w_data w' = None /\ held w' = O /\ w_script w' = srest.
+Proof.
+  intros Ho Hd Hscr Hre Ht Gn Gc G421 G120 Ng Hrs S1 Na Tok Hclean Hh Sq.
+  destruct (connect_tls w0 h p s srest g r1 (rss ++ [rq]) a Ho Hscr Hre Ht Gn Gc G421 G120 Ng Hrs S1 Na Tok)
+    as (w1 & E1 & I1 & Ssl1 & Up1 & Sid1 & Sc1 & Cf1 & C61 & Cl1 & D1 & _).
+  assert (Inv1 : InvK w1 (rss ++ [rq])) by (split; [exact I1|rewrite D1; exact Hd]).
+  specialize (Hh w1 Cf1 C61). rewrite <- Cf1 in Hh.
+  destruct (lockstep_all_configurations cs rss xss w1 [rq] Inv1 Hh) as (E2 & (I2 & D2)).
+  pose proof (replies_not_blocked _ _ E2) as NB.
+  destruct (steps_keept cs w1 (historyK_calls_noctl _ _ _ _ _ Hh)) as (KT & KC).
+  cbn [steps]. rewrite E1. rewrite (steps_app w1 cs [ADisconnect true] NB).
+  set (w2 := snd (steps w1 cs)) in *.
+  assert (Ho2 : w_open w2 = true) by (destruct I2 as ((X & _) & _); exact X).
+  destruct (KT Ho2) as (_ & Ssl2 & Up2 & _ & _ & Cl2). destruct KC as (Sc2 & _).
+  destruct (quit_call_tls w2 rq [] xq I2 ltac:(rewrite Ssl2; exact Ssl1) ltac:(rewrite Up2; exact Up1) ltac:(rewrite Cl2, Cl1; exact Hclean) Sq)
+    as (w3 & E3 & O3 & S3 & U3 & B3 & P3 & D3 & Sc3 & _).
+  cbn [steps]. rewrite E3. cbn [fst snd map app].
+  split. { rewrite map_app, E2, map_app. reflexivity. }
+  split; [exact O3|]. split; [exact S3|]. split; [exact U3|]. split; [rewrite D3; exact D2|].
+  split. { unfold held. rewrite O3, D3, D2. reflexivity. }
+  rewrite Sc3, Sc2. exact Sc1.
+Qed.
